@@ -199,6 +199,7 @@ func (x *c12exec) run(e common.Env, p *common.Part) *c12fail {
 	}
 	for oi, op := range h.Ops {
 		script := c12script
+		script.InitHook = func(uint16) { x.hook("backend.init") }
 		x.c.NextSession(&script)
 		from := x.c.logPos()
 		fail := func(sig, what string, wd bool) *c12fail {
@@ -293,7 +294,8 @@ func (x *c12exec) run(e common.Env, p *common.Part) *c12fail {
 			cancel()
 		case "keygen-cancel-held":
 			// continuations parked right after the first synchronisation, call cancelled, continuations released afterwards
-			x.setHold("dkg.callbackStart")
+			// (or inside the set-up of the session, in the protocol instance's Init)
+			x.setHold([]string{"dkg.callbackStart", "backend.init"}[op.Arg%2])
 			ctx, cancel := context.WithCancel(context.Background())
 			done := make(chan map[uint16]callRes, 1)
 			go func() {
@@ -345,7 +347,7 @@ func (x *c12exec) run(e common.Env, p *common.Part) *c12fail {
 			x.calls(s, func(u uint16) ([]byte, error) { return x.sign(ctx, u, op.Topic) })
 			cancel()
 		case "sign-cancel-held":
-			pt := []string{"sign.callbackStart", "sign.afterPrepare"}[op.Arg%2]
+			pt := []string{"sign.callbackStart", "sign.afterPrepare", "backend.init"}[op.Arg%3]
 			s := x.signers(rng)
 			x.pick(op.Topic, s)
 			x.setHold(pt)
@@ -601,7 +603,7 @@ func genC12(rng *rand.Rand, idx int, e common.Env) c12hist {
 }
 
 func unitC12(e common.Env, p *common.Part) {
-	p.Rule = "PRNG histories of 8..40 operations over 3..5 nodes and 2..4 topics on one cluster of real schemes (loud with real disc.Member, barrier, silent): successful / too-few-callers / cancelled KeyGen and Sign, cancellation with the continuation held at a verif point, re-use of a topic the moment the previous call returned (continuation held after the result hand-off), two topics at once, duplicate Sign on a live topic, replay of a finished session's traffic, foreign-node and non-member traffic during a live session; every failed or cancelled operation is followed by a successful one on the same topic; distinct key = history hash; non-trivial when the history re-uses a topic, overlaps sessions or injects late/foreign traffic"
+	p.Rule = "PRNG histories of 8..40 operations over 3..5 nodes and 2..4 topics on one cluster of real schemes (loud with real disc.Member, barrier, silent): successful / too-few-callers / cancelled KeyGen and Sign, cancellation with the continuation held at a verif point or inside the protocol instance's Init (between instance creation and handler registration), re-use of a topic the moment the previous call returned (continuation held after the result hand-off), two topics at once, duplicate Sign on a live topic, replay of a finished session's traffic, foreign-node and non-member traffic during a live session; every failed or cancelled operation is followed by a successful one on the same topic; distinct key = history hash; non-trivial when the history re-uses a topic, overlaps sessions or injects late/foreign traffic"
 	p.Assumptions = append(p.Assumptions, "silent-mode histories use a fresh topic per session (re-use in silent mode is the separate sub-oracle c12silent); expected failures use short deadlines, expected successes a 6 s watchdog with a replay of the whole history at 5x deadlines before a deadline is judged")
 	n := e.Pick(64, 4000)
 	for i := 0; i < n; i++ {
